@@ -124,6 +124,8 @@ def run(rep, tier):
     kernels.run_scope(rep, [COMP])
     from vf.pyvc import tensors
     tensors.run_tensor_contracts(rep, ["C13"])        # the stored axis order is the member order after reorder / measure
+    from vf.pyvc import kronexec
+    kronexec.run_combine(rep)
     history_part(rep, tier)
     seed = common.seed()
     sample = (opcells.single_target_cells(tier, seed)[::9] + opcells.multi_target_cells(tier, seed)[::7] + morecells.structural_cells(tier, seed)[::9]
